@@ -219,13 +219,38 @@ func (jr *JobResult) Summary() string {
 	return fmt.Sprintf("%s[%d]: paths=%d %v viol=%d inconcl=%d", jr.Job.Harness, jr.Job.Shape, jr.Paths, ks, len(jr.Violations), len(jr.Inconcl))
 }
 
+// EvalString runs fn(arg) concretely and returns its string result.
+func (in *Interp) EvalString(fn *ssa.Function, arg int) (string, error) {
+	v, err := in.eval(fn, []Value{int64(arg)})
+	if err != nil {
+		return "", err
+	}
+	s, ok := v.(string)
+	if !ok {
+		return "", fmt.Errorf("not a string: %T", v)
+	}
+	return s, nil
+}
+
 // EvalInt runs a niladic function concretely and returns its integer result.
 func (in *Interp) EvalInt(fn *ssa.Function) (int, error) {
-	ex := newExec(in, Config{MaxSteps: 1_000_000}, nil)
+	out, err := in.eval(fn, nil)
+	if err != nil {
+		return 0, err
+	}
+	i, ok := out.(int64)
+	if !ok {
+		return 0, fmt.Errorf("not an int: %T", out)
+	}
+	return int(i), nil
+}
+
+func (in *Interp) eval(fn *ssa.Function, args []Value) (Value, error) {
+	ex := newExec(in, Config{MaxSteps: 5_000_000}, nil)
 	ex.concreteOnly = true
 	var out Value
-	host := &HostFunc{Name: "evalint", F: func(th *Thread, args []Value) Value {
-		out = th.call(nil, 0, fn, nil)
+	host := &HostFunc{Name: "eval", F: func(th *Thread, _ []Value) Value {
+		out = th.call(nil, 0, fn, args)
 		return nil
 	}}
 	main := ex.newThread("eval")
@@ -236,11 +261,7 @@ func (in *Interp) EvalInt(fn *ssa.Function) (int, error) {
 	<-ex.done
 	ex.wg.Wait()
 	if ex.outcome != OutOK {
-		return 0, fmt.Errorf("%v: %s", ex.outcome, ex.outMsg)
+		return nil, fmt.Errorf("%v: %s", ex.outcome, ex.outMsg)
 	}
-	i, ok := out.(int64)
-	if !ok {
-		return 0, fmt.Errorf("not an int: %T", out)
-	}
-	return int(i), nil
+	return out, nil
 }
